@@ -446,7 +446,7 @@ template<typename Alloc>
 void splinetable<Alloc>::write_fits_core(fitsfile* fits) const{
 	int error = 0;
 	/*
-	 * Write the coefficients
+	 * Create the coefficient image
 	 * Fits stores arrays in a sort-of Fortran-like way,
 	 * so we need to write the axes in reverse order.
 	 * Note that the strides will not need to be written explicitly,
@@ -454,23 +454,18 @@ void splinetable<Alloc>::write_fits_core(fitsfile* fits) const{
 	 */
 	{
 		std::unique_ptr<long[]> naxes(new long[ndim]);
-		uint64_t nelements=1;
-		for(uint32_t i=0; i<ndim; i++) {
+		for(uint32_t i=0; i<ndim; i++)
 			naxes[i] = this->naxes[ndim - i - 1];
-			nelements *= naxes[i];
-		}
 		fits_create_img(fits, FLOAT_IMG, ndim, naxes.get(), &error);
 		if (error != 0)
 			throw std::runtime_error("Failed to create FITS image for spline coefficients");
-	
-		std::unique_ptr<long[]> fpixel(new long[ndim]);
-		std::fill_n(fpixel.get(),ndim,1L);
-		fits_write_pix(fits, TFLOAT, fpixel.get(), nelements, &coefficients[0], &error);
-		if (error != 0)
-			throw std::runtime_error("Failed to write coefficients to FITS image");
 	}
 	
 	// Write out header information
+	// All keys go in before any pixel data: a header which grows after the
+	// data unit exists forces cfitsio to move the data, and a write
+	// interrupted in the middle of that move leaves a structurally valid
+	// file with displaced coefficients.
 	const char typeString[]="Spline Coefficient Table";
 	fits_write_key(fits, TSTRING, "TYPE", (void*)&typeString, NULL, &error);
 	if (error != 0)
@@ -507,6 +502,16 @@ void splinetable<Alloc>::write_fits_core(fitsfile* fits) const{
 			throw std::runtime_error("Failed to write aux entry");
 	}
 	// done with headers
+	
+	// Write the coefficients themselves
+	{
+		uint64_t nelements=get_ncoeffs();
+		std::unique_ptr<long[]> fpixel(new long[ndim]);
+		std::fill_n(fpixel.get(),ndim,1L);
+		fits_write_pix(fits, TFLOAT, fpixel.get(), nelements, &coefficients[0], &error);
+		if (error != 0)
+			throw std::runtime_error("Failed to write coefficients to FITS image");
+	}
 	
 	// Write knot vectors
 	for(uint32_t i=0; i<ndim; i++) {
